@@ -688,8 +688,8 @@ func rtTokens(a *aggregator, v *rtView) {
 			flow := addFieldFlow(callee) // param index -> "field:<name>" | "index"
 			var why []string
 			want := map[string]func(ssa.Value) bool{
-				"field:pegRule": func(x ssa.Value) bool { p, ok := x.(*ssa.Parameter); return ok && p.Parent() == add && p == add.Params[0] },
-				"field:begin":   func(x ssa.Value) bool { p, ok := x.(*ssa.Parameter); return ok && p.Parent() == add && p == add.Params[1] },
+				"field:pegRule": func(x ssa.Value) bool { p, ok := resolveLocal(x).(*ssa.Parameter); return ok && p.Parent() == add && p == add.Params[0] },
+				"field:begin":   func(x ssa.Value) bool { p, ok := resolveLocal(x).(*ssa.Parameter); return ok && p.Parent() == add && p == add.Params[1] },
 				"field:end":     func(x ssa.Value) bool { return v.isLoadOfVar(x, "position") },
 				"index":         func(x ssa.Value) bool { return v.isLoadOfVar(x, "tokenIndex") },
 			}
@@ -1004,6 +1004,7 @@ func rtMatchers(a *aggregator, v *rtView) {
 	} else if v.in.Cfg.Bools["HasDot"] {
 		a.Und("R-advance-guarded", "Init/matchDot", cfg, "", "matchDot not found although HasDot")
 	}
+	matchStringOther := false
 	if f := v.cl["matchString"]; f != nil {
 		var why []string
 		// cursor i: phi starting at load position, incremented by 1
@@ -1018,9 +1019,13 @@ func rtMatchers(a *aggregator, v *rtView) {
 			}
 		})
 		if cursor == nil {
-			a.Und("R-advance-guarded", "Init/matchString", cfg, v.in.srcPos(f.Pos()), "cursor variable (a copy of position advanced in the loop) not found")
-			return
+			// written without a cursor copy (e.g. buffer[position+i] over the literal's runes):
+			// this shape rule does not apply; verdict, new position and bounds of matchString are
+			// decided on every position of short inputs by R-matcher-semantics
+			a.OK("R-advance-guarded", "Init/matchString", cfg, v.in.srcPos(f.Pos()), "matchString does not advance a cursor copy of position: the shape rule does not apply (decided by R-matcher-semantics)")
+			matchStringOther = true
 		}
+		if cursor != nil {
 		isCursor := func(x ssa.Value) bool { return x == ssa.Value(cursor) }
 		// every increment edge of the cursor is dominated by buffer[i] == c (c ranged from the string parameter)
 		for _, e := range cursor.Edges {
@@ -1072,6 +1077,7 @@ func rtMatchers(a *aggregator, v *rtView) {
 		}
 		a.Decide(len(why) == 0, "R-advance-guarded", "Init/matchString", cfg, v.in.srcPos(f.Pos()),
 			"cursor advances only past runes equal to the literal's (never endSymbol); position is committed once, after the whole literal matched", strings.Join(uniq(why), "; "))
+		}
 	} else if v.in.Cfg.Bools["HasString"] {
 		a.Und("R-advance-guarded", "Init/matchString", cfg, "", "matchString not found although HasString")
 	}
@@ -1092,6 +1098,12 @@ func rtMatchers(a *aggregator, v *rtView) {
 			if _, isPhi := ia.Index.(*ssa.Phi); isPhi && g == v.cl["matchString"] {
 				return
 			}
+			if g == v.cl["matchString"] && matchStringOther {
+				return // indices of the other matchString shape are checked by evaluation (R-matcher-semantics)
+			}
+			if g == v.cl["p.reset"] && isLastElemLoad(ssaLoadOf(ia), func(x ssa.Value) bool { return v.isLoadOfVar(x, "buffer") }) {
+				return // reset looks at the last rune of the buffer it just built, behind a length test
+			}
 			bad = append(bad, v.in.srcPos(ia.Pos()))
 		})
 		for _, af := range g.AnonFuncs {
@@ -1103,6 +1115,16 @@ func rtMatchers(a *aggregator, v *rtView) {
 	}
 	a.Decide(len(bad) == 0 && n > 0, "R-index-sites", "Init/every buffer[...] read is at position or the matchString cursor", cfg, "",
 		fmt.Sprintf("%d index site(s)", n), "buffer is indexed by something other than position/the literal cursor at "+strings.Join(bad, ", "))
+}
+
+// ssaLoadOf: the load of an element address (the first one), or nil.
+func ssaLoadOf(ia *ssa.IndexAddr) ssa.Value {
+	for _, r := range *ia.Referrers() {
+		if u, ok := r.(*ssa.UnOp); ok && u.Op == token.MUL {
+			return u
+		}
+	}
+	return nil
 }
 
 // isRangedRune: x is the rune produced by ranging over the string parameter.
@@ -1196,6 +1218,7 @@ func rtRune(a *aggregator, v *rtView) {
 			continue
 		}
 		found := false
+		visited := map[*ssa.Function]bool{}
 		var scan func(g *ssa.Function)
 		scan = func(g *ssa.Function) {
 			instrsOf(g, func(in ssa.Instruction) {
@@ -1217,10 +1240,30 @@ func rtRune(a *aggregator, v *rtView) {
 			for _, af := range g.AnonFuncs {
 				scan(af)
 			}
+			// helpers of the same file the function hands the work to
+			instrsOf(g, func(in ssa.Instruction) {
+				if cl, ok := in.(ssa.CallInstruction); ok {
+					if callee := cl.Common().StaticCallee(); callee != nil && !visited[callee] && inFile(v, callee) {
+						visited[callee] = true
+						scan(callee)
+					}
+				}
+			})
 		}
+		visited[f] = true
 		scan(f)
 		a.Decide(found, "R-rune", s.what, cfg, v.in.srcPos(f.Pos()), "string(<[]rune>[token.begin:token.end])", "the quoted text is not the rune slice [begin:end] of the token being reported")
 	}
+}
+
+// inFile: f (or its generic origin) is one of the functions of the generated file.
+func inFile(v *rtView, f *ssa.Function) bool {
+	for _, g := range v.all {
+		if g == f || (f.Origin() != nil && g == f.Origin()) || (g.Origin() != nil && g.Origin() == f) {
+			return true
+		}
+	}
+	return false
 }
 
 // fromTokenField: x is (a conversion of) a load of some token's field `name`.
@@ -1324,6 +1367,7 @@ func rtRoute(a *aggregator, v *rtView) {
 	}
 	// print takes the rule name from rul3s[n.pegRule] of the node being printed
 	okName := false
+	visitedName := map[*ssa.Function]bool{}
 	var scan func(g *ssa.Function)
 	scan = func(g *ssa.Function) {
 		instrsOf(g, func(in ssa.Instruction) {
@@ -1338,7 +1382,16 @@ func rtRoute(a *aggregator, v *rtView) {
 		for _, af := range g.AnonFuncs {
 			scan(af)
 		}
+		instrsOf(g, func(in ssa.Instruction) {
+			if cl, ok := in.(ssa.CallInstruction); ok {
+				if callee := cl.Common().StaticCallee(); callee != nil && !visitedName[callee] && inFile(v, callee) {
+					visitedName[callee] = true
+					scan(callee)
+				}
+			}
+		})
 	}
+	visitedName[printFn] = true
 	scan(printFn)
 	a.Decide(okName, "R-route", "node.print names the node by rul3s[n.pegRule]", cfg, v.in.srcPos(printFn.Pos()), "rule name is the table entry of the node's own pegRule", "print does not take the rule name from rul3s indexed by the node's pegRule")
 }
